@@ -63,6 +63,9 @@ Record I (s : state) : Prop := mkI {
 (* the monitor's view of the execution state: a finished execution whose scripted value is 0 panicked *)
 Definition cuex (ph v : nat) : nat := if Nat.eqb ph 2 && Nat.eqb v 0 then 3 else ph.
 
+Arguments cuex : simpl never.
+Arguments pan_flag : simpl never.
+
 Lemma end_ex_pan v : end_ex (pan_flag v) = cuex 2 v.
 Proof. unfold end_ex, pan_flag, cuex. destruct (Nat.eqb v 0); reflexivity. Qed.
 Lemma end_val_pan v : end_val (pan_flag v) v = v.
@@ -381,7 +384,8 @@ Proof.
     destruct (RE t c) as (Ec1 & Ec2); [rewrite Hpc; reflexivity..|].
     eexists. split.
     { cbn [trace]. simpl rev. rewrite mon_run_app, Hm. simpl. unfold sf_mon_step. cbn [e_t e_k e_a e_b e_c]. rewrite RCt.
-      cbn [cu_key cu_ex cu_inv cu_val]. rewrite Ec1, !Nat.eqb_refl. simpl. reflexivity. }
+      cbn [cu_key cu_ex cu_inv cu_val]. destruct (cuex_ret (t_val (ts s t))) as [CR1 CR2].
+      rewrite Ec1, !Nat.eqb_refl, CR1, CR2. simpl. reflexivity. }
     constructor; cbn [lock calls wg cval next open ts trace panicked cre ckey m_now m_cur m_exs].
     + intros u. case_t u t; sp; [reflexivity|].
       specialize (RC u). destruct (phase (t_pc (ts s u))); [|assumption]. destruct RC as (i' & Hi' & Hc). exists i'. split; [lia|assumption].
@@ -471,4 +475,47 @@ Proof.
     destruct (i_map _ HI _ _ E) as [A B]. exact (Hfree _ _ A B). }
   unfold step. rewrite Hpc, Hnone. eexists. split; [reflexivity|].
   cbn [ts calls]. rewrite upd_same. auto.
+Qed.
+
+(* ---- panicking user functions ----
+   (a scripted fn with value 0 panics: Model.pan_flag).  The trace theorem sf_share above already
+   covers them; the following state facts say that the flight of a panicking execution is wound up
+   exactly like any other. *)
+
+(* whatever fn did, the executing call goes through makeCall's deferred function: none of these
+   steps looks at the panic flag, and none can block except on the mutex *)
+Lemma sf_cleanup_unconditional s t c :
+  (t_pc (ts s t) = FnE c -> gate_open (open s) (t_gate (ts s t)) = true ->
+     exists s', step (Thr t) s = Some s' /\ t_pc (ts s' t) = DLock c) /\
+  (t_pc (ts s t) = DLock c -> lock s = None -> exists s', step (Thr t) s = Some s' /\ t_pc (ts s' t) = DDel c) /\
+  (t_pc (ts s t) = DDel c -> exists s', step (Thr t) s = Some s' /\ t_pc (ts s' t) = DUnlock c /\
+     alookup Nat.eqb (t_key (ts s t)) (calls s') = None) /\
+  (t_pc (ts s t) = DUnlock c -> exists s', step (Thr t) s = Some s' /\ t_pc (ts s' t) = DDone c /\ lock s' = None) /\
+  (t_pc (ts s t) = DDone c -> exists s', step (Thr t) s = Some s' /\ t_pc (ts s' t) = Idle /\ wg s' c = wg s c - 1).
+Proof.
+  repeat split; intros Hpc; unfold step; rewrite Hpc.
+  - intros ->. eexists. split; [reflexivity|]. cbn [ts]. rewrite upd_same. reflexivity.
+  - intros ->. eexists. split; [reflexivity|]. cbn [ts]. rewrite upd_same. reflexivity.
+  - eexists. split; [reflexivity|]. cbn [ts calls]. rewrite upd_same. split; [reflexivity|apply alookup_aremove_eq].
+  - eexists. split; [reflexivity|]. cbn [ts lock]. rewrite upd_same. split; reflexivity.
+  - eexists. split; [reflexivity|]. cbn [ts wg]. rewrite !upd_same. split; reflexivity.
+Qed.
+
+(* once the executing call of a flight is gone (returned or unwound by a panic), nobody is stuck on
+   it: its waiters can return, and no map entry refers to it, so the next call of the key misses
+   (sf_fresh_after) and executes afresh *)
+Lemma sf_panic_safe scripts sched :
+  let s := run step sched (init scripts) in
+  (forall u c, t_pc (ts s u) = CWait c -> own_of (t_pc (ts s (cre s c))) <> Some c ->
+               exists s', step (Thr u) s = Some s' /\ t_pc (ts s' u) = Idle /\
+                          t_res (ts s' u) = (0, cval s c) :: t_res (ts s u)) /\
+  (forall k c, alookup Nat.eqb k (calls s) = Some c -> own_of (t_pc (ts s (cre s c))) = Some c).
+Proof.
+  intros s; subst s. set (s := run step sched (init scripts)).
+  assert (HI : I s) by apply run_Inv. clearbody s. split.
+  - intros u c Hpc Hgone.
+    assert (Hw : wait_of (t_pc (ts s u)) = Some c) by (rewrite Hpc; reflexivity).
+    destruct (i_wait _ HI u c Hw) as (_ & _ & _ & [W|W]); [|contradiction].
+    unfold step. rewrite Hpc, W. simpl. eexists. split; [reflexivity|]. cbn [ts]. rewrite upd_same. auto.
+  - intros k c Hk. destruct (i_map _ HI _ _ Hk) as [A _]. destruct (t_pc (ts s (cre s c))); simpl in *; congruence.
 Qed.
